@@ -79,6 +79,8 @@ func (g *Generator) ParseFlags() {
 func (g *Generator) MakeData(typeName string) (any, bool) {
 	g.getter = true
 	g.setter = true
+	g.hasNew = false
+	g.getsetMethods = nil
 	g.data = NewTmplData(
 		g.CommonFlags().CmdLine,
 		g.CommonFlags().Version,
